@@ -224,7 +224,8 @@ impl<'a> VectorIndex<'a> for WaveletMatrix {
         if !self.contains(value) {
             return None;
         }
-        self.data.map_up_with(self.start(value) + rank, value)
+        let index = self.start(value).checked_add(rank)?;
+        self.data.map_up_with(index, value)
     }
 
     fn select_iter(&'a self, rank: usize, value: <Self as Vector>::Item) -> Self::ValueIter {
